@@ -223,6 +223,30 @@ func main() {
 		renameArgs = bs.Src(c.Fun) + "(" + roleSrc(bs, c.Args[0], mfd) + ", " + roleSrc(bs, c.Args[1], mfd) + ")"
 	}
 	out.Def("moveOutputRename", "String", xlib.LeanStr(renameArgs))
+	// the condition under which moveOutput leaves the existing file where it is (`return false, nil`)
+	keepCond := ""
+	mofd := bs.Func("moveOutput")
+	ast.Inspect(mofd.Body, func(n ast.Node) bool {
+		is, ok := n.(*ast.IfStmt)
+		if !ok || keepCond != "" {
+			return true
+		}
+		for _, st := range is.Body.List {
+			if rs, ok := st.(*ast.ReturnStmt); ok && len(rs.Results) == 2 && bs.Src(rs.Results[0]) == "false" && bs.Src(rs.Results[1]) == "nil" {
+				// shape only: a bare call on two plain identifiers (not the identifiers' names, no surrounding operators)
+				keepCond = roleSrc(bs, is.Cond, mofd)
+				if c, ok := is.Cond.(*ast.CallExpr); ok && len(c.Args) == 2 {
+					_, a0 := c.Args[0].(*ast.Ident)
+					_, a1 := c.Args[1].(*ast.Ident)
+					if a0 && a1 {
+						keepCond = bs.Src(c.Fun) + "(local, local)"
+					}
+				}
+			}
+		}
+		return true
+	})
+	out.Def("moveOutputKeepCond", "String", xlib.LeanStr(keepCond))
 
 	// ---- lock.go: flock flags
 	lk := xlib.Parse("src/core/lock.go")
